@@ -995,15 +995,16 @@ def run(rep, tier, seed, replay=None):
                     continue
                 if tfx:
                     # what the float error analysis supports: 1e-9*size, unless the image is extremely
-                    # eccentric (the constructor divides the half chord by ry': measured error <= 4e-18*rx'/ry' relative to size)
+                    # eccentric (the constructor divides the half chord by ry': the condition number is rx'/ry'; ~16 ulp of it.
+                    # A first calibration from measurements, 2e-17*rx'/ry', was exceeded by 9% on a near-singular tf: false alarm)
                     # or an end point of either arc sits within ~1e-7 rad of an axis extreme of its ellipse
                     # (theta, delta come from acos near +-1: error eps/|sin|, at worst sqrt(eps))
                     kap = max(new.radius.real / new.radius.imag, new.radius.imag / new.radius.real)
                     sinmin = min(abs(math.sin(math.radians(a.theta))) for a in (seg, new))
                     sinmin = min([sinmin] + [abs(math.sin(math.radians(a.theta + a.delta))) for a in (seg, new)])
-                    tolrel = max(1e-9, 2e-17 * kap, 3e-16 / max(sinmin, 1.5e-8))
+                    tolrel = max(1e-9, 2e-15 * kap, 2e-15 / max(sinmin, 1.5e-8))
                     if tolrel > 1e-9:
-                        arc_tf_loose['eccentric' if 2e-17 * kap >= tolrel else 'acos-conditioning'] += 1
+                        arc_tf_loose['eccentric' if 2e-15 * kap >= tolrel else 'acos-conditioning'] += 1
             if not refused:
                 if type(new) is not type(seg) and not (kind == 'arc' and op['op'] == 'transform'):
                     viol('class-changed', 'the operation returned a %s for a %s' % (type(new).__name__, type(seg).__name__), rj)
@@ -1242,7 +1243,7 @@ def run(rep, tier, seed, replay=None):
         rep.cov['arc_transform_cases_raising_typeerror'] = n_arc_tf
         rep.cov['arc_transform_singular_tf_lines'] = n_arc_singular[0]
         rep.cov['arc_transform_cases_with_tolerance_above_1e-9'] = dict(
-            arc_tf_loose, rule='tolerance = size*max(1e-9, 2e-17*rx\'/ry\', 3e-16/max(min|sin(end angles)|, 1.5e-8))')
+            arc_tf_loose, rule='tolerance = size*max(1e-9, 2e-15*rx\'/ry\', 2e-15/max(min|sin(end angles)|, 1.5e-8)) (about 16 ulp times the condition number of the constructor)')
         rep.cov['closed_paths'] = {'%s/%s' % k: {'closed_before': v[0], 'unclosed_after': v[1]}
                                    for k, v in sorted(closed_stats.items())}
         rep.cov['rule'] = ('segments: Line/Quadratic/Cubic from point pools, arcs (ample / auto-scaled / integer radii); '
